@@ -24,7 +24,7 @@ EXTENDS Scope, Json, SequencesExt
 
 CONSTANTS MaxLen,      \* items after which the program only winds down
           Deep,        \* TRUE: descend to MaxDepth before any scope is closed (deep-nesting programs)
-          Feat         \* set of enabled features: "macro","label","proto","for","fwd","func","funcx","stmt","linkage"
+          Feat         \* set of enabled features: "macro","label","proto","for","fwd","func","funcx","stmt","linkage","tdspec"
 
 VARIABLES stack,       \* scope ids, innermost last
           kinds,       \* parallel to stack: "file" "func" "block" "for" "forbody" "proto"
@@ -50,6 +50,7 @@ Room == RoomOpen /\ (Deep => since < 3)          \* Deep: at most 3 items per le
 CanOpen == Len(stack) < MaxDepth + 1 /\ nsc < MaxScopes /\ (Deep => down)
 CanClose == Deep => ~down
 F(x) == x \in Feat
+SortedNames(S) == SetToSortSeq(S, LAMBDA a, b : a < b)
 
 \* Selection and iteration statements with UNBRACED substatements (6.8.4p3, 6.8.5p5: the statement is a block and
 \* each substatement is a block of its own).  Their scopes hold only what expressions can declare: tags and
@@ -96,6 +97,21 @@ DeclOrd(n, k) ==
   /\ Same(<<nsc, nid, stack, kinds, macros, labels, gotos, incomplete, down, done>>)
   /\ since' = since + 1
 
+\* Declaration whose type specifier is a visible typedef name m (possibly m = n: `T T[3];`): once a type specifier has
+\* been seen, the next identifier is the declarator even if it is spelled like a visible typedef name, which it then
+\* hides for the rest of the scope (6.7.2, 6.7.8p3).  The item says which typedef the specifier denotes.
+TypedefVisible(m) == LET r == Visible(top, "decl", m) IN r # NULL /\ ent[r] = "typedef" /\ MacroId(m) = NULL
+DeclTD(n, m, k) ==
+  /\ ~done /\ Room /\ F("tdspec")
+  /\ IF InProto THEN k = "tparam" ELSE (k \in {"obj", "typedef"} /\ PlainCtx /\ (k = "obj" => kind # "file"))
+  /\ ~DHas(sc[top].decl, n) /\ ~ObjMacroOn(n) /\ TypedefVisible(m)
+  /\ kind = "file" => LinkId(n) = NULL
+  /\ PutAs(top, "decl", n, NewId)
+  /\ ent' = Append(ent, k)
+  /\ Emit1([op |-> "decl", ns |-> "decl", kind |-> k, name |-> n, id |-> NewId, ts |-> m, tsid |-> Visible(top, "decl", m)])
+  /\ Same(<<nsc, nid, stack, kinds, macros, labels, gotos, incomplete, down, done>>)
+  /\ since' = since + 1
+
 \* Declarations WITH LINKAGE (6.2.2): `extern char n[..];` (xobj) and the function declaration (xfunc), at file scope
 \* or in any block.  All linked declarations of a spelling denote ONE entity (a file-scope object definition is
 \* that entity too), so they share one identity; what a block-scope one adds is a new BINDING in its scope: from
@@ -123,7 +139,10 @@ DeclTag(n, k, fwd) ==       \* struct n { ... };   or the forward declaration  s
   /\ PutAs(top, "tag", n, NewId)
   /\ ent' = Append(ent, k)
   /\ incomplete' = IF fwd THEN incomplete \cup {NewId} ELSE incomplete
-  /\ Emit1([op |-> IF fwd THEN "fwd" ELSE "decl", ns |-> "tag", kind |-> k, name |-> n, id |-> NewId])
+  /\ LET tds == SortedNames({m \in Names : F("tdspec") /\ ~fwd /\ k = "struct" /\ TypedefVisible(m)})
+         \* members spelled like the visible typedef names, typed by them in rotation:  struct M { U T; T U; }
+         mem == [i \in 1..Len(tds) |-> [name |-> tds[(i % Len(tds)) + 1], ts |-> tds[i], tsid |-> Visible(top, "decl", tds[i])]]
+     IN Emit1([op |-> IF fwd THEN "fwd" ELSE "decl", ns |-> "tag", kind |-> k, name |-> n, id |-> NewId, mem |-> mem])
   /\ Same(<<nsc, nid, stack, kinds, macros, labels, gotos, down, done>>)
   /\ since' = since + 1
 
@@ -215,7 +234,6 @@ OpenProto ==
   /\ Same(<<nid, ent, macros, labels, gotos, incomplete, done>>)
   /\ since' = 0
 
-SortedNames(S) == SetToSortSeq(S, LAMBDA a, b : a < b)
 
 OpenFunc(P) ==              \* function definition: parameters P and the body form one scope
   /\ ~done /\ RoomOpen /\ F("func") /\ kind = "file" /\ CanOpen
@@ -226,9 +244,14 @@ OpenFunc(P) ==              \* function definition: parameters P and the body fo
      IN /\ sc' = sc @@ (s :> [parent |-> top,
                               decl |-> [n \in P |-> id0 + (CHOOSE i \in 1..Len(ps) : ps[i] = n)],
                               tag |-> EmptyDict])
-        /\ ent' = ent \o [i \in 1..Len(ps) |-> "param"]
-        /\ prog' = prog \o <<[op |-> "open", how |-> "func"]>>
-                        \o [i \in 1..Len(ps) |-> [op |-> "decl", ns |-> "decl", kind |-> "param", name |-> ps[i], id |-> id0 + i]]
+        \* a parameter spelled like a file-scope typedef name is declared with that very typedef:  void fn(T T)
+        /\ LET self(i) == F("tdspec") /\ TypedefVisible(ps[i]) IN
+           /\ ent' = ent \o [i \in 1..Len(ps) |-> IF self(i) THEN "tparam" ELSE "param"]
+           /\ prog' = prog \o <<[op |-> "open", how |-> "func"]>>
+                        \o [i \in 1..Len(ps) |->
+                              IF self(i) THEN [op |-> "decl", ns |-> "decl", kind |-> "tparam", name |-> ps[i], id |-> id0 + i,
+                                               ts |-> ps[i], tsid |-> Visible(top, "decl", ps[i])]
+                              ELSE [op |-> "decl", ns |-> "decl", kind |-> "param", name |-> ps[i], id |-> id0 + i]]
                         \o <<[op |-> "body"]>>
   /\ nsc' = nsc + 1 /\ stack' = Append(stack, nsc + 1) /\ kinds' = Append(kinds, "func")
   /\ down' = (down /\ Len(stack) + 1 < MaxDepth + 1)
@@ -367,6 +390,7 @@ Turn ==                     \* Deep: bottom reached or no way further down: star
 CNext ==
   \/ \E n \in Names, k \in {"obj", "typedef", "enum", "param"} : DeclOrd(n, k)
   \/ \E n \in Names, k \in {"xobj", "xfunc"} : DeclLinked(n, k)
+  \/ \E n \in Names, m \in Names, k \in {"obj", "typedef", "tparam"} : DeclTD(n, m, k)
   \/ \E n \in Names, k \in {"struct", "union"}, f \in BOOLEAN : DeclTag(n, k, f)
   \/ \E n \in Names : CompleteTag(n) \/ UseOrd(n) \/ UseCall(n) \/ UseTag(n) \/ Undef(n) \/ Label(n) \/ Goto(n) \/ OpenFor(n)
   \/ \E n \in Names, fl \in BOOLEAN : Define(n, fl)
@@ -406,6 +430,10 @@ Inv_Lexical ==
         m == LexMacro(prog, Len(prog) - 1, u.name)
     IN IF m # NULL /\ (ent[m] = "macro" \/ u.form = "call") THEN u.id = m
        ELSE u.id = LexScan(prog, Len(prog) - 1, 0, u.ns, u.name)
+
+Inv_LexicalTS ==      \* the typedef a declaration's specifier denotes, read off the text alone
+  prog # <<>> /\ prog[Len(prog)].op = "decl" /\ "ts" \in DOMAIN prog[Len(prog)] =>
+    prog[Len(prog)].tsid = LexScan(prog, Len(prog) - 1, 0, "decl", prog[Len(prog)].ts)
 
 Inv_Stack == /\ Len(stack) = Len(kinds) /\ stack[1] = FileScope
              /\ \A i \in 2..Len(stack) : sc[stack[i]].parent = stack[i - 1]
